@@ -296,7 +296,7 @@ def spell(d, model=None, prefer=(2, 3, 4)):
     return f"types.MatrixType({comp}, {val(d[2][0])}, {val(d[2][1])})"
 
 
-@family("C09.iscmp", props=["C09"], functions=["nsl.op::IsComparison", "nsl.op::StrToOp"])
+@family("C09.iscmp", props=["C09", "C01", "C04"], functions=["nsl.op::IsComparison", "nsl.op::StrToOp"])
 def iscmp(R):
     """IsComparison is true exactly for the six comparison operations; every binary operator spelling maps to its own Operation."""
     o = _ops()
@@ -321,7 +321,7 @@ def iscmp(R):
         seen[sp] = got
 
 
-@family("C09.types.resolve", props=["C09"],
+@family("C09.types.resolve", props=["C09", "C01", "C04"],
         functions=[T + "::ResolveBinaryExpressionType", T + "::_GetCommonScalarType", T + "::_GetCommonPrimitiveType",
                    T + "::_GetRowsColumns", T + "::VectorType.WithComponentType", T + "::MatrixType.WithComponentType",
                    "nsl.op::IsComparison"],
